@@ -4,8 +4,8 @@ from __future__ import annotations
 import ast
 
 from ..cfg import CFG
-from ..core import (AnalysisError, DefRef, NotConst, Ref, call_name, calls_in, dotted, enclosing_conditions, func_params, get_kw, norm,
-                    qualname_of, walk_no_nested)
+from ..core import (AnalysisError, DefRef, NotConst, Ref, call_name, calls_in, dotted, enclosing_conditions, enclosing_conditions_expanded,
+                    func_params, get_kw, norm, qualname_of, walk_no_nested)
 
 PROPERTY = "C14"
 EXPLANATION = (
@@ -200,7 +200,7 @@ def run(ctx):
              and n.slice.value in ("_type", "_recorddescriptor")]
     ctx.floor("R14.3", "type-marker stores in pack_obj", len(marks), 2)
     for mk in marks:
-        conds = enclosing_conditions(mk, pack_obj)
+        conds = enclosing_conditions_expanded(mk, pack_obj)
         ctx.check(("self.pack_descriptors", True) in conds, "R14.3", f"pack_obj:marker:{mk.slice.value}", f"`{mk.slice.value}` is added under {conds}: with descriptors disabled the "
                   "lines would carry keys that are not fields of the record", mk, "only under `if self.pack_descriptors`", key=f"R14.3:pack_obj:marker-unconditional:{mk.slice.value}")
     wi = ctx.anchor_func("flow.record.adapter.jsonfile.JsonfileWriter.__init__")
